@@ -2,6 +2,7 @@ import FGVerif.Proofs.C16Main
 import FGVerif.Proofs.C16Spec
 import FGVerif.Proofs.C16Dpo
 import FGVerif.Proofs.C16Full
+import FGVerif.Proofs.C16WF
 /-!
   C16 — applying a rule changes exactly its reaction centre, once per embedding.
 
@@ -30,6 +31,8 @@ import FGVerif.Proofs.C16Full
     `C16.applyRule_spec`      the model meets `Spec` (all clauses, order-free) under the contract of VF2
                               and for a hash that does not depend on how edges are stored
     `C16.rcSpecB_sound`       the executable statement for `to_rc_graph` implies the declarative one
+    `C16.inputsWFB_sound`     the driver's `inputsWF` flag implies `InputsWF` (hence the hypotheses of the two theorems above:
+                              `specCheck_sound_checked`, `applyRule_spec_checked`; file `C16WF`)
     `C16.expectedIts_isExpected`, `applyMatch_equiv_expectedIts`
 -/
 namespace C16
